@@ -766,9 +766,9 @@ impl_slot2!(Ix3, exec2_ix3);
 impl_slot2!(Ix4, exec2_ix4);
 impl_slot2!(IxDyn, exec2_dyn);
 
-/// run one operation on a slot: publish the stub context, call, collect what the stub saw
-pub fn exec(slot: &dyn Slot, op: &Op) -> Outcome {
-    let query: Vec<(u64, u64)> = match &op.call {
+/// the query elements of a call as the stub will see them
+pub fn query_of(call: &Call) -> Vec<(u64, u64)> {
+    match call {
         Call::Scalar { x, y } | Call::Interp { x, y } | Call::InterpInto { x, y, .. } => vec![(canon(x.bits()), canon(y.bits()))],
         Call::Array { q } | Call::ArrayInto { q, .. } => {
             if q.ys.is_empty() {
@@ -778,27 +778,38 @@ pub fn exec(slot: &dyn Slot, op: &Op) -> Outcome {
             }
         }
         _ => vec![],
-    };
+    }
+}
+
+/// run one operation on a slot: publish the stub context, call, collect what the stub saw
+pub fn exec(slot: &dyn Slot, op: &Op) -> Outcome {
     OPCTX.with(|c| {
         *c.borrow_mut() = Some(OpCtx {
-            query,
+            query: query_of(&op.call),
             plan: op.plan.clone(),
             yield_mask: op.yield_mask,
             check_acc: op.check_acc,
             log: StubLog::default(),
         })
     });
-    // the numeric-type seam: element operations of this call may yield (no-op unless the slot's
-    // element type is `Yf` and the thread runs under the baton)
-    crate::yelem::arm(op.yield_mask);
+    // re-entrancy: a callback whose plan says `Nest` calls back into this very slot
+    // Safety: the pointer is only dereferenced by callbacks running inside `slot.call` below, on
+    // this thread, and is cleared before `exec` returns.
+    let ptr: *const (dyn Slot + 'static) = unsafe { std::mem::transmute::<*const (dyn Slot + '_), *const (dyn Slot + 'static)>(slot as *const dyn Slot) };
+    let prev = stub::CUR_SLOT.with(|c| c.replace(Some(ptr)));
+    // the numeric-type seam: element operations of this call may yield or fail (no-op unless the
+    // slot's element type is `Yf`; yields only when the thread runs under the baton)
+    crate::yelem::arm(op.yield_mask, op.elem_fault);
     let noctx0 = stub::NOCTX_CALLBACKS.load(std::sync::atomic::Ordering::Relaxed);
     let mut out = slot.call(&op.call);
     let foreign = stub::NOCTX_CALLBACKS.load(std::sync::atomic::Ordering::Relaxed) != noctx0;
-    let elem_yields = crate::yelem::disarm();
+    let (elem_yields, fired) = crate::yelem::disarm();
+    stub::CUR_SLOT.with(|c| c.set(prev));
     if let Some(ctx) = OPCTX.with(|c| c.borrow_mut().take()) {
         out.stub = ctx.log;
     }
     out.stub.elem_yields = elem_yields;
+    out.stub.elem_fault_fired = fired;
     out.stub.foreign_callbacks = foreign;
     out
 }
